@@ -8,6 +8,10 @@ import FV.Model.Strop
     F|Q decomp <n> (<x> <y>)*            `strop_decomposition`
     F|Q pip <px> <py> <n> (<x> <y>)*     `is_point_inside_polygon`
     F|Q vgrid <n> (<x> <y>)*             the 0/1 matrix built from the vertex list
+    G mk <r1> <r2> <c1> <c2> <k> <row>*  `StropInstance(Strop(grid), trunk)` for an arbitrary trunk rectangle
+    F|Q traces <σ> <k> <row>* <n> (<x> <y>)*   `tracesGrid` (hypothesis of `matrix_of_traced_polygon`): "<rect> <dims> <bnd>"
+    F|Q shoelace <n> (<x> <y>)*          `shoelace2` (twice the signed area)
+    F|Q rcount <px> <py> <n> (<x> <y>)*  `rectilinear` and `rightCount` (closed form of the even–odd test)
 -/
 namespace FV.Drv
 open FV FV.Strop
@@ -36,6 +40,10 @@ def stropGridOp (op : String) (args : List String) : Option String :=
   | "tm" => (runP pGrid args).map fun g => " ".intercalate ((trunksMatrix g).map showSRect)
   | "rowiv" => (runP pRow args).map fun r =>
       match rowInterval r with | none => "empty" | some i => showIv i
+  | "mk" => (runP (do let r1 ← pNat; let r2 ← pNat; let c1 ← pNat; let c2 ← pNat; let g ← pGrid; pure (r1, r2, c1, c2, g)) args).map
+      fun (r1, r2, c1, c2, g) =>
+        if g.wf then (match mkInstance g ⟨⟨r1, r2⟩, ⟨c1, c2⟩⟩ with | none => "invalid" | some s => showInst s)
+        else "err:Assert"
   | "which" => (runP (do let s ← tok; let g ← pGrid; pure (s, g)) args).map fun (s, g) =>
       match strop g with
       | none => "err:Assert"
@@ -67,6 +75,13 @@ def stropCoordOp (op : String) (args : List String) : Option String :=
   | "vgrid" => (runP (pVerts (α := α)) args).map fun vs =>
       let (xs, ys, g) := gridOfVertices vs
       s!"{xs.length} {ys.length} " ++ showGrid g
+  | "traces" => (runP (do let σ ← pInt; let g ← pGrid; let vs ← pVerts (α := α); pure (σ, g, vs)) args).map fun (σ, S, vs) =>
+      let zero : α := ((0 : Nat) : α)
+      let (xs, ys, _) := gridOfVertices vs
+      s!"{b01 (rectilinear vs)} {b01 (gridDims S (ys.length - 1) (xs.length - 1))} {b01 (isBoundaryOf zero σ S xs ys vs)} {b01 (tracesGrid zero σ S vs)}"
+  | "shoelace" => (runP (pVerts (α := α)) args).map fun vs => sc (shoelace2 ((0 : Nat) : α) vs)
+  | "rcount" => (runP (do let x ← pSc (α := α); let y ← pSc; let vs ← pVerts; pure (x, y, vs)) args).map fun (x, y, vs) =>
+      s!"{b01 (rectilinear vs)} {rightCount x y vs}"
   | _ => none
 end
 
